@@ -228,7 +228,13 @@ pub fn first<T: AsRef<Path>>(path: T) -> RvResult<String> {
 /// assert_eq!(sys::name("/foo/bar.foo").unwrap(), "bar");
 /// ```
 pub fn name<T: AsRef<Path>>(path: T) -> RvResult<String> {
-    base(trim_ext(path)?)
+    // Trim the extension from the final component itself rather than re-parsing the trimmed path
+    // which would normalize away names like `.` e.g. `/..foo` would otherwise yield `/`
+    let base = base(&path)?;
+    Ok(match path.as_ref().extension() {
+        Some(val) => base.trim_suffix(format!(".{}", val.to_string()?)),
+        None => base,
+    })
 }
 
 /// Returns true if the `Path` contains the given path or string.
